@@ -58,6 +58,11 @@ def run_repo_tests(prop):
 def run(prop, case, exception_is_violation=False):
     if case['kind'] == 'repo_tests':
         return run_repo_tests(prop)
+    if prop == 'C03' and 'lower_case_kekule_ring' in case.get('features', ()):
+        # bond orders of such rings are decided by kekulisation after assembly, not by the annotated descriptor order:
+        # outside the input class C03 speaks about (the documentation asks for the Kekule spelling, which IS generated)
+        return {'violations': [], 'rejected': {'lower_case_spelling_of_a_non_aromatic_ring': 1}, 'nontrivial': False, 'cls': 'skipped',
+                'sample': MC.describe_case(case), 'counters': {}}
     contracts.clear()
     before = contracts.STATS['resolve_calls']
     if prop == 'C09' and len(MC.describe_case(case)) % 5 == 0:
